@@ -72,6 +72,24 @@ pub fn replay(input: &str, out: &mut Out) {
             if r != [0x5A] {
                 return Err(format!("reader consumed {} bytes, writer wrote {}", bytes.len() - r.len(), w.len()));
             }
+            // ---- the same octets from a source that delivers them in pieces of at most n (socket, BufReader boundary):
+            //      the value and the position behind it do not depend on how the octets arrive
+            for n in 1..=3usize {
+                let mut r = Pieces { data: &bytes[..], n };
+                let ok = match k {
+                    "len" => r.read_length().map(|x| x as i128 == v).map_err(|e| format!("in pieces of {}: {:?}", n, e))?,
+                    "tag" => r.read_identifier().map(|t| t == tag_of(a, b)).map_err(|e| format!("in pieces of {}: {:?}", n, e))?,
+                    "i64" => r.read_integer_i64(w.len() as u32).map(|x| x as i128 == v).map_err(|e| format!("in pieces of {}: {:?}", n, e))?,
+                    "u64" | "enum" => r.read_integer_u64(w.len() as u32).map(|x| x as i128 == v).map_err(|e| format!("in pieces of {}: {:?}", n, e))?,
+                    _ => unreachable!(),
+                };
+                if !ok {
+                    return Err(format!("read back a different value from a source delivering pieces of {}", n));
+                }
+                if r.data != [0x5A] {
+                    return Err(format!("reader consumed {} bytes from a source delivering pieces of {}, writer wrote {}", bytes.len() - r.data.len(), n, w.len()));
+                }
+            }
             Ok(())
         });
         let why = match r {
@@ -85,6 +103,21 @@ pub fn replay(input: &str, out: &mut Out) {
         }
     }
     out.line(&json!({"summary": true, "cases": n, "mismatches": bad}));
+}
+
+/// A source that hands out its octets in pieces of at most `n` per read call.
+struct Pieces<'a> {
+    data: &'a [u8],
+    n: usize,
+}
+
+impl std::io::Read for Pieces<'_> {
+    fn read(&mut self, buf: &mut [u8]) -> std::io::Result<usize> {
+        let k = buf.len().min(self.n).min(self.data.len());
+        buf[..k].copy_from_slice(&self.data[..k]);
+        self.data = &self.data[k..];
+        Ok(k)
+    }
 }
 
 /// The typed layer: BasicWriter / BasicReader for INTEGER, BOOLEAN and ENUMERATED (root-only and extensible item lists).
@@ -105,7 +138,16 @@ fn typed(k: &str, v: i128, a: u64, b: u64, exp: &[u8]) -> Result<(), String> {
             if x as i128 != v {
                 return Err(format!("typed reader returned {}", x));
             }
-            rest(r.into_inner())
+            rest(r.into_inner())?;
+            for n in 1..=2usize {
+                let mut r = DER::reader(Pieces { data: &bytes[..], n });
+                let x = r.read_number::<i64, numbers::NoConstraint>().map_err(|e| format!("typed reader failed on pieces of {}: {:?}", n, e))?;
+                if x as i128 != v {
+                    return Err(format!("typed reader returned {} from a source delivering pieces of {}", x, n));
+                }
+                rest(r.into_inner().data)?;
+            }
+            Ok(())
         }
         "tbool" => {
             let mut w = DER::writer(Vec::new());
